@@ -4,14 +4,15 @@ set -e
 H=$1; shift
 OUTNAME=$H
 if [ "$1" = "--out" ]; then OUTNAME=$2; shift; shift; fi
+V="$(cd "$(dirname "$0")/.." && pwd)"   # root of the verif tree this script belongs to (may be a snapshot)
 REPO=${VERIF_REPO:-/repo}
-OUT=${VERIF_BUILD:-/verif/build}/dsim
+OUT=${VERIF_BUILD:-$V/build}/dsim
 mkdir -p $OUT
 CXX=${CXX:-g++}
 SIMO=$OUT/simrt.o
-if [ ! -f $SIMO ] || [ /verif/simrt/simrt.cpp -nt $SIMO ] || [ /verif/simrt/simrt.h -nt $SIMO ]; then
-  $CXX -O2 -g -std=c++17 -c /verif/simrt/simrt.cpp -o $SIMO.tmp.$$ && mv $SIMO.tmp.$$ $SIMO
+if [ ! -f $SIMO ] || [ $V/simrt/simrt.cpp -nt $SIMO ] || [ $V/simrt/simrt.h -nt $SIMO ]; then
+  $CXX -O2 -g -std=c++17 -c $V/simrt/simrt.cpp -o $SIMO.tmp.$$ && mv $SIMO.tmp.$$ $SIMO
 fi
 $CXX -std=c++17 -O1 -g -fopenmp -fsanitize=thread --param tsan-instrument-func-entry-exit=0 --param tsan-distinguish-volatile=1 \
-  -DSOUFFLE_VERIF -w -I$REPO/src/include -I/verif "$@" -c /verif/dsim/$H.cpp -o $OUT/$OUTNAME.o
+  -DSOUFFLE_VERIF -w -I$REPO/src/include -I$V "$@" -c $V/dsim/$H.cpp -o $OUT/$OUTNAME.o
 $CXX -o $OUT/$OUTNAME $OUT/$OUTNAME.o $SIMO -ldl -lpthread
